@@ -3,7 +3,7 @@ import ast
 
 from .. import alg
 from ..alg import Poly, P, B, C, L, sym, mk_fn
-from ..interp import Interp, Hooks, Arr, Obj, Unk, SymTable, symarr, scalar, num, Foreign, Fmt, count_atom
+from ..interp import Interp, Hooks, Arr, Obj, Unk, SymTable, symarr, scalar, num, Foreign, Fmt, count_atom, _SelectVal
 from ..fitmodel import loc, compare
 from ..astutil import up, walk_local, stores, chain, calls, const, root_name, enclosing_map
 from ..rules import where
@@ -175,7 +175,14 @@ class _Sink(Foreign):
 
     def sl_method(self, interp, name, args, kw, node):
         if name == 'write':
-            self.writes.append((args[0] if args else None, interp.path_cond()))
+            def put(v, cond):
+                if isinstance(v, _SelectVal):
+                    # one of two pieces of text, chosen by the data: each is what is written, under its condition
+                    put(v.a, v.cond if cond is None else cond * v.cond)
+                    put(v.b, alg.b_not(v.cond) if cond is None else cond * alg.b_not(v.cond))
+                else:
+                    self.writes.append((v, cond))
+            put(args[0] if args else None, interp.path_cond())
             return None
         if name in ('close', 'flush'):
             return None
@@ -580,7 +587,12 @@ def check_headers_semantic(ctx):
         header = next((t for t in (''.join(texts)).split('\n') if 'p1' in t.lower().split() and ('zeta' in t.lower().split())), None)
         names = [x for x in (header or '').lower().split() if x in ('p1', 'zeta', 'alpha')]
         cols = []
+        ca_ = count_atom(R_)
         for w, c_ in h.sink.writes:
+            if c_ is not None:
+                c3_ = alg.rebuild(c_, lambda a: Poly.const(3) if a == ca_ else None)
+                if c3_.is_const() and c3_.const_value() == 0:
+                    continue          # never written for a result that has fits (an impossible combination of the alternatives, or the no-data line)
             if isinstance(w, Fmt):
                 for v in w.values:
                     if isinstance(v, Arr):
